@@ -21,6 +21,7 @@
 -/
 import Umya.Lemmas.BookRoundTrip
 import Umya.Thm.C10
+import Umya.Lemmas.TablesGen
 namespace Umya.Thm.C01
 open Umya.Xml Umya.Num Umya.CellXml Umya.Sheet Umya.Dec
 
@@ -264,5 +265,20 @@ example : cellOK natFmt { col := 16384, row := 1048576, raw := .str [' ', 'x', '
 example : ∃ s', run {} [.setVal 2 3 7, .setCell 5 1 4 2, .getMut 1 1] = .ok s' ∧ Coherent s' ∧
     (∀ k ∈ keysOf s', 1 ≤ k.2 ∧ k.2 ≤ 16384 ∧ 1 ≤ k.1 ∧ k.1 ≤ 1048576) := by
   refine ⟨_, rfl, Umya.Thm.C10.C10_reachable [.setVal 2 3 7, .setCell 5 1 4 2, .getMut 1 1] _ rfl, by decide⟩
+
+
+/-- **Tie to the source (T).**  Regenerated from the source on this run and proved equal to the model:
+    the text pipelines of writer/driver.rs (`write_text_node` = quick-xml `escape` then `\r` ↦ `&#13;`,
+    `write_text_node_conversion` = `partial_escape` then the same), the line-end normalisation of
+    `reader/driver.rs::unescape_text`, and the `CellErrorType` text tables (Display and FromStr inverse). -/
+theorem C01_channels_match_source (s : List Char) :
+    Umya.Gen.write_text_node_escape.run Umya.XmlEsc.escapeOld Umya.XmlEsc.partialEscapeOld s = escape s ∧
+    Umya.Gen.write_text_node_conversion_escape.run Umya.XmlEsc.escapeOld Umya.XmlEsc.partialEscapeOld s = partialEscape s ∧
+    Umya.Gen.applySteps Umya.Gen.unescape_text_normalise s = normEol s ∧
+    Umya.Gen.cell_error_from_str = Umya.Gen.cell_error_display.map (fun p => (p.2, p.1)) ∧
+    Umya.Gen.cell_error_display.map (fun p => p.2.toList) = Umya.CellXml.ErrT.all.map Umya.CellXml.ErrT.text := by
+  refine ⟨?_, ?_, Umya.Gen.gen_unescape_text s, Umya.Gen.gen_cell_errors.1, Umya.Gen.gen_cell_errors.2.1⟩
+  · rw [(Umya.Gen.xml_escape_eq s).1]; exact Umya.Gen.gen_write_text_node s
+  · rw [(Umya.Gen.xml_escape_eq s).2]; exact Umya.Gen.gen_write_text_node_conversion s
 
 end Umya.Thm.C01
